@@ -4,4 +4,4 @@ CONSTANTS
   ScanMod = 1
 INIT Init
 NEXT Next
-INVARIANTS PlantedThm SymmetryThm ScanThm SafetyThm ModeThm Export
+INVARIANTS PlantedThm InterleavedThm SymmetryThm ScanThm ShortcutThm SafetyThm ModeThm Export
